@@ -33,6 +33,7 @@ type Engine struct {
 	funcsByName map[string]*ssa.Function
 	houdini  map[string]*houdiniState
 	imports  map[string]string // alias -> package path (from contract files)
+	prevVC   *VC
 }
 
 func NewEngine(repo string) (*Engine, error) {
@@ -299,8 +300,9 @@ func (eng *Engine) VerifyFunc(key string) (res *UnitResult) {
 	}()
 	// pass 1: discover what each block writes (for loop havoc sets)
 	delete(eng.prevWrites, res.Unit)
-	_, fr1 := eng.translate(res.Unit, mode, fn, fc, true)
+	vc1, fr1 := eng.translate(res.Unit, mode, fn, fc, true)
 	eng.prevWrites[res.Unit] = fr1.writes
+	eng.prevVC = vc1
 	// houdini inference of simple invariants for loops without annotation (pass 2 repeated)
 	vc, fr := eng.inferAndTranslate(res.Unit, mode, fn, fc)
 	// completeness check of the recorded write sets
@@ -347,6 +349,18 @@ func (eng *Engine) translate(unit, mode string, fn *ssa.Function, fc *FuncContra
 	}
 	vc := newVC(eng, unit, mode, pkg)
 	vc.svSorts = map[string]string{}
+	if !discovery && eng.prevVC != nil && eng.prevVC.unit == unit {
+		// register the state variables discovered in pass 1 (their sorts may be needed at loop headers)
+		for t := range eng.prevVC.heapTypes {
+			vc.heapVar(t)
+		}
+		for _, t := range eng.prevVC.arrTypes {
+			vc.arrHeapVar(t)
+		}
+		for _, m := range eng.prevVC.mapTypes {
+			vc.mapHeapVar(m)
+		}
+	}
 	fr := eng.newFrame(vc, fn, fc)
 	entry := vc.rootState()
 	// lemmas in use
